@@ -54,7 +54,12 @@ impl FencedString {
                 char_starts: Vec::new(),
             }
         } else {
-            let start_byte = self.char_starts[start];
+            // `start == len` is a valid position (the empty suffix)
+            let start_byte = self
+                .char_starts
+                .get(start)
+                .cloned()
+                .unwrap_or(self.buffer.len());
             let end_byte = end.and_then(|e| self.char_starts.get(e)).cloned();
             if let Some(end_byte) = end_byte {
                 Self {
@@ -83,7 +88,12 @@ impl FencedString {
                 _ => &self.buffer[start..],
             }
         } else {
-            let start_byte = self.char_starts[start];
+            // `start == len` is a valid position (the empty suffix)
+            let start_byte = self
+                .char_starts
+                .get(start)
+                .cloned()
+                .unwrap_or(self.buffer.len());
             let end_byte = end.and_then(|e| self.char_starts.get(e)).cloned();
             if let Some(end_byte) = end_byte {
                 &self.buffer[start_byte..end_byte]
